@@ -28,6 +28,11 @@ def zand(*xs):
         if z3.is_true(x): continue
         if z3.is_false(x): return F
         if z3.is_and(x): ys += x.children()
+        elif x.num_args() == 2 and z3.is_int_value(x.arg(0)) and z3.is_int_value(x.arg(1)):
+            r = fold_ground(x, 0)
+            if r is True: continue
+            if r is False: return F
+            ys.append(x)
         else: ys.append(x)
     if len(ys) > 1:
         seen = set(); zs = []
@@ -37,6 +42,19 @@ def zand(*xs):
         ys = zs
     if not ys: return T
     if len(ys) == 1: return ys[0]
+    # a conjunct Not(And(a, b, x)) next to the conjuncts a and b is Not(x): keeps path conditions in literal form
+    if any(z3.is_not(y) and z3.is_and(y.arg(0)) for y in ys):
+        ids = {y.get_id() for y in ys}
+        zs = []
+        for y in ys:
+            if z3.is_not(y) and z3.is_and(y.arg(0)):
+                rest = [x for x in y.arg(0).children() if x.get_id() not in ids]
+                if not rest: return F
+                y = z3.Not(rest[0]) if len(rest) == 1 else z3.Not(z3.And(*rest))
+                if z3.is_not(y) and z3.is_not(y.arg(0)): y = y.arg(0).arg(0)
+            zs.append(y)
+        ys = zs
+        if len(ys) == 1: return ys[0]
     return z3.And(*ys)
 def zor(*xs):
     ys = []
@@ -71,7 +89,9 @@ def znot(x):
 class IV:
     """integer: z3 Int term, Rust type, sound interval [lo, hi]"""
     __slots__ = ('t', 'ty', 'lo', 'hi')
-    def __init__(s, t, ty, lo, hi): s.t = t; s.ty = ty; s.lo = lo; s.hi = hi
+    def __init__(s, t, ty, lo, hi):
+        if lo == hi and not z3.is_int_value(t): t = z3.IntVal(lo)       # the (sound) interval pins the value: keep the term a numeral
+        s.t = t; s.ty = ty; s.lo = lo; s.hi = hi
     def const(s): return s.lo if s.lo == s.hi else None
     def __repr__(s): return 'IV(%s:%s[%s,%s])' % (s.t if s.lo != s.hi else s.lo, s.ty, s.lo, s.hi)
 class BV:
@@ -121,9 +141,53 @@ class FnPtr:
 UNIT = Agg([], 'unit')
 def mk_int(v, ty): return IV(z3.IntVal(v), ty, v, v)
 def mk_bool(b): return BV(T if b else F, bool(b))
+_CMP = {z3.Z3_OP_LE: lambda a, b: a <= b, z3.Z3_OP_GE: lambda a, b: a >= b, z3.Z3_OP_LT: lambda a, b: a < b, z3.Z3_OP_GT: lambda a, b: a > b,
+        z3.Z3_OP_EQ: lambda a, b: a == b, z3.Z3_OP_DISTINCT: lambda a, b: a != b}
+def fold_ground(t, depth=4):
+    """True/False when the Boolean term is a small ground combination of comparisons of numerals, else None"""
+    if z3.is_true(t): return True
+    if z3.is_false(t): return False
+    if not z3.is_app(t): return None
+    k = t.decl().kind(); n = t.num_args()
+    if k in _CMP and n == 2:
+        a, b = t.arg(0), t.arg(1)
+        if z3.is_int_value(a) and z3.is_int_value(b): return _CMP[k](a.as_long(), b.as_long())
+        return None
+    if depth <= 0 or n > 64: return None
+    if k == z3.Z3_OP_NOT:
+        r = fold_ground(t.arg(0), depth - 1)
+        return None if r is None else (not r)
+    if k in (z3.Z3_OP_AND, z3.Z3_OP_OR):
+        unknown = False
+        for i in range(n):
+            r = fold_ground(t.arg(i), depth - 1)
+            if r is None: unknown = True
+            elif r is (k == z3.Z3_OP_OR): return r          # a true disjunct / a false conjunct decides
+        return None if unknown else (k == z3.Z3_OP_AND)
+    if k == z3.Z3_OP_IMPLIES and n == 2:
+        a = fold_ground(t.arg(0), depth - 1)
+        if a is False: return True
+        b = fold_ground(t.arg(1), depth - 1)
+        if b is True: return True
+        if a is True and b is False: return False
+        return None
+    return None
+
+def eq_const(t, k, depth=12):
+    """t == k for an if-then-else tree t over numerals, with the branch conditions it implies made explicit conjuncts"""
+    if z3.is_int_value(t): return T if t.as_long() == k else F
+    if depth > 0 and z3.is_app_of(t, z3.Z3_OP_ITE):
+        c = t.arg(0); ex = eq_const(t.arg(1), k, depth - 1); ey = eq_const(t.arg(2), k, depth - 1)
+        if z3.is_false(ey): return zand(c, ex)
+        if z3.is_false(ex): return zand(znot(c), ey)
+        if z3.is_true(ex) and z3.is_true(ey): return T
+        if ex.eq(ey): return ex
+        return z3.If(c, ex, ey)
+    return t == k
+
 def bv_of(t):
-    if z3.is_true(t): return mk_bool(True)
-    if z3.is_false(t): return mk_bool(False)
+    r = fold_ground(t)
+    if r is not None: return mk_bool(r)
     return BV(t)
 
 STD_ENUMS = {'Option': ['None', 'Some'], 'Result': ['Ok', 'Err'], 'ControlFlow': ['Continue', 'Break']}
@@ -218,6 +282,7 @@ def ite_iv(c, a, b):
 class MergeFail(Exception):
     pass
 
+CUR_CTX = [None]
 def merge(c, a, b):
     """value = if c then a else b"""
     if a is b: return a
@@ -240,6 +305,13 @@ def merge(c, a, b):
         return En(d, v, a.ty or b.ty)
     if isinstance(a, Ref) and isinstance(b, Ref):
         if a.act == b.act and a.local == b.local and a.proj == b.proj: return a
+        cx = CUR_CTX[0]
+        if cx is not None and not a.proj and not b.proj:
+            fa = cx.frames.get(a.act); fb = cx.frames.get(b.act)
+            if fa is not None and fb is not None and fa.get('__fn') == 'cell' and fb.get('__fn') == 'cell':
+                # two shared references to element temporaries of the std models (slice[i], last(), ..): a reference to the merged element
+                n = cx.new_act(); cx.frames[n] = {'e': merge(c, fa.get('e'), fb.get('e')), '__ref': {}, '__act': n, '__fn': 'cell'}
+                return Ref(n, 'e', [])
         raise MergeFail('distinct refs')
     if isinstance(a, StrLit) and isinstance(b, StrLit) and a.b == b.b: return a
     if isinstance(a, (StrLit, StrSel)) and isinstance(b, (StrLit, StrSel)):
@@ -262,6 +334,7 @@ def merge(c, a, b):
 class Exec:
     def __init__(self, fns, consts, impl_index, enums, ctx=None, unwind=16, abstractions=None, opts=None):
         self.fns = fns; self.consts = consts; self.impl = impl_index; self.ctx = ctx or Ctx()
+        CUR_CTX[0] = self.ctx
         self.enums = dict(STD_ENUMS); self.enums.update(enums)
         self.unwind = unwind
         self.constcache = {}
@@ -333,9 +406,22 @@ class Exec:
         else:
             parts = name.split('::')
             cands = []
-            for n in self.const_by_last.get(parts[-1], []):
-                np_ = n.split('::'); k = min(len(np_), len(parts))
-                if np_[-k:] == parts[-k:]: cands.append(n)
+            def segs(x):
+                # split on '::' outside <...>; an `<impl at file:line>` segment matches any one segment
+                out = []; d = 0; cur = ''
+                i = 0
+                while i < len(x):
+                    if x[i] == '<': d += 1
+                    elif x[i] == '>' and x[i - 1] != '-': d -= 1
+                    if d == 0 and x.startswith('::', i): out.append(cur); cur = ''; i += 2; continue
+                    cur += x[i]; i += 1
+                out.append(cur); return out
+            parts = segs(name)
+            for n in self.consts:
+                np_ = segs(n)
+                if np_[-1] != parts[-1]: continue
+                k = min(len(np_), len(parts))
+                if all(a == b or a.startswith('<impl at') or b.startswith('<impl at') for a, b in zip(np_[-k:], parts[-k:])): cands.append(n)
             if len(cands) == 1: key = cands[0]
             elif len(cands) > 1:
                 raise Inconclusive('ambiguous const %s: %s' % (name, cands))
@@ -372,6 +458,8 @@ class Exec:
             return UNIT
         m = re.match(r'^\{closure@.*\}$', s)
         if m: return Closure(s, [])
+        if s in ('RangeFull', 'std::ops::RangeFull'): return UNIT
+        if re.match(r'^(?:std::option::)?Option::<.*>::None$', s): return En(mk_int(0, 'isize'), {0: []}, 'Option')
         if s in ('std::time::UNIX_EPOCH', 'UNIX_EPOCH', 'SystemTime::UNIX_EPOCH', 'std::time::SystemTime::UNIX_EPOCH'):
             return Agg([mk_int(0, 'u64'), mk_int(0, 'u32')], 'struct:SystemTime')
         if re.match(r'^[\w:<>{}# ,]+$', s) and self.resolve_fnptr(s): return FnPtr(s)
@@ -506,7 +594,16 @@ class Exec:
         if r.act != cur_act and not z3.is_true(self.ctx.cur_guard):
             old = self.project(fr, fr.get(r.local), full)
             if old is not None:
-                try: val = merge(BV(self.ctx.cur_guard), val, old)
+                wg = self.ctx.cur_guard
+                cg = fr.get('__cg')
+                if cg is not None and not z3.is_true(cg):
+                    # the target activation is suspended under cg and is only ever resumed under conditions implying cg:
+                    # conjuncts of the current path condition that cg already contains need not guard the write
+                    ids = {x.get_id() for x in _conj(cg)}
+                    wg = zand(*[x for x in _conj(wg) if x.get_id() not in ids])
+                if z3.is_true(wg): old = None
+            if old is not None:
+                try: val = merge(BV(wg), val, old)
                 except MergeFail as e: raise Inconclusive('guarded write: %s' % e)
         if not full: fr[r.local] = val
         else: fr[r.local] = self.updated(fr, fr.get(r.local), full, val)
@@ -544,6 +641,7 @@ class Exec:
             return self.read(frame, self.parse_place(s[5:]))
         if s.startswith('const '): return self.literal(s[6:])
         if s.startswith('no_retag '): return self.operand(frame, s[9:])
+        if re.match(r'^[<\w][\w:<>, &\[\];()\'{}#@./-]*$', s) and '::' in s: return FnPtr(s)      # a function item passed by value
         raise Inconclusive('operand? ' + s)
 
     # ---- integer operations
@@ -598,7 +696,26 @@ class Exec:
                         if aid in ctx.cases and bid not in ctx.cases: a, b = b, a; bid = aid
                         cs = ctx.cases[bid]; t = a.t * cs[-1][1]
                         for cnd, v in reversed(cs[:-1]): t = z3.If(cnd, a.t * v, t)
-                    else: raise Inconclusive('nonlinear multiplication')
+                    else:
+                        # one factor is an if-then-else over constants (a sign, a unit size): distribute the product over its leaves
+                        def leaves(t, n=[0]):
+                            if z3.is_int_value(t): return [(None, t.as_long())]
+                            if z3.is_app_of(t, z3.Z3_OP_ITE) and n[0] < 16:
+                                n[0] += 1
+                                l1 = leaves(t.arg(1), n); l2 = leaves(t.arg(2), n)
+                                if l1 is None or l2 is None: return None
+                                c = t.arg(0)
+                                return [(c if g is None else z3.And(c, g), v) for g, v in l1] + [(z3.Not(c) if g is None else z3.And(z3.Not(c), g), v) for g, v in l2]
+                            return None
+                        lb = leaves(b.t, [0]); la = None if lb is not None else leaves(a.t, [0])
+                        if lb is None and la is not None: a, b = b, a; lb = la
+                        if lb is None:
+                            # a factor with a small value range: case split on its value
+                            if b.hi - b.lo > 16 and a.hi - a.lo <= 16: a, b = b, a
+                            if b.hi - b.lo <= 16: lb = [(b.t == v, v) for v in range(b.lo, b.hi + 1)]
+                        if lb is None: raise Inconclusive('nonlinear multiplication of %r and %r' % (a, b))
+                        t = a.t * lb[-1][1]
+                        for cnd, v in reversed(lb[:-1]): t = z3.If(cnd, a.t * v, t)
                 else: t = a.t * b.t
                 c = [a.lo * b.lo, a.lo * b.hi, a.hi * b.lo, a.hi * b.hi]; lo = min(c); hi = max(c)
             if lo == hi: t = z3.IntVal(lo)
@@ -727,7 +844,7 @@ class Exec:
             return self.cast(self.operand(frame, m.group(1)), m.group(2))
         if s.startswith('&'):
             t = s[1:].strip()
-            for pre in ('mut ', 'raw const ', 'raw mut ', 'fake shallow ', 'fake '):
+            for pre in ('mut ', 'raw const ', 'raw mut ', 'fake shallow ', 'fake ', '(fake shallow) ', '(fake) '):
                 if t.startswith(pre): t = t[len(pre):]
             base, proj = self.parse_place(t)
             # &(*_r).proj  -> reborrow
@@ -852,7 +969,66 @@ class Exec:
         return f.loopinfo
 
     # ---- path-sensitive interval refinement
+    def guard_ids(self):
+        g = self.ctx.cur_guard
+        key = g.get_id()
+        c = getattr(self, '_gid_cache', None)
+        if c is None or c[0] != key or not c[2].eq(g):
+            pos = set(); neg = set()
+            for x in _conj(g):
+                if z3.is_not(x): neg.add(x.arg(0).get_id())
+                else: pos.add(x.get_id())
+            c = self._gid_cache = (key, (pos, neg), g)
+        return c[1]
+
+    def entailed(self, c):
+        """does the current path condition (with the argument domains) entail c (True) / its negation (False)? None: neither, or no
+        answer within 200 ms. A solver query used only to simplify a stored value under its path condition (sound either way)."""
+        g = self.ctx.cur_guard
+        key = (g.get_id(), c.get_id())
+        cache = self.__dict__.setdefault('_ent_cache', {})
+        if key in cache and cache[key][1].eq(c) and cache[key][2].eq(g): return cache[key][0]
+        s = self.__dict__.get('_ent_solver')
+        if s is None:
+            s = self._ent_solver = z3.Solver(); s.set('timeout', 200)
+            for d in getattr(self, 'dom_constraints', []): s.add(d)
+            self._ent_gid = None
+        if self._ent_gid != g.get_id():
+            if self._ent_gid is not None: s.pop()
+            s.push(); s.add(g); self._ent_gid = g.get_id(); self._ent_g = g
+        r = None
+        if s.check(z3.Not(c)) == z3.unsat: r = True
+        elif s.check(c) == z3.unsat: r = False
+        cache[key] = (r, c, g)
+        self.ctx.entail_queries = getattr(self.ctx, 'entail_queries', 0) + 1
+        return r
+
+    def under_guard(self, t):
+        """resolve ite(c, x, y) whose condition is decided by the conjuncts of the current path guard"""
+        n = 0
+        while z3.is_app_of(t, z3.Z3_OP_ITE) and n < 64:
+            c, x, y = t.children()
+            pos, neg = self.guard_ids()
+            cs = _conj(c)
+            if all((not z3.is_not(k) and k.get_id() in pos) or (z3.is_not(k) and k.arg(0).get_id() in neg) for k in cs): t = x
+            elif any((not z3.is_not(k) and k.get_id() in neg) or (z3.is_not(k) and k.arg(0).get_id() in pos) for k in cs): t = y
+            else:
+                r = self.entailed(c)
+                if r is True: t = x
+                elif r is False: t = y
+                else: break
+            n += 1
+        return t
+
     def view(self, st, v):
+        if self.opts.get('resolve_ite') and not z3.is_true(self.ctx.cur_guard):
+            if isinstance(v, IV) and z3.is_app_of(v.t, z3.Z3_OP_ITE):
+                t2 = self.under_guard(v.t)
+                if t2 is not v.t:
+                    t2s = z3.simplify(t2)
+                    v = mk_int(t2s.as_long(), v.ty) if z3.is_int_value(t2s) else IV(t2, v.ty, v.lo, v.hi)
+            elif hasattr(v, 'is_strlike') and (z3.is_app_of(v.start.t, z3.Z3_OP_ITE) or z3.is_app_of(v.len.t, z3.Z3_OP_ITE)):
+                v = type(v)(v.buf, self.view(st, v.start), self.view(st, v.len))
         if isinstance(v, IV) and st.get('__ref'):
             r = st['__ref'].get(v.t.get_id())
             if r and r[2].eq(v.t):
@@ -896,7 +1072,13 @@ class Exec:
                 if a is None: e[k] = b
                 elif b is None: e[k] = a
                 else:
-                    try: e[k] = merge(c, self.view(e1, a), self.view(e0, b))
+                    # each side is viewed under its own path condition (the ite resolution of view() reads ctx.cur_guard)
+                    saved = self.ctx.cur_guard
+                    try:
+                        self.ctx.cur_guard = g1; va = self.view(e1, a)
+                        self.ctx.cur_guard = g0; vb = self.view(e0, b)
+                    finally: self.ctx.cur_guard = saved
+                    try: e[k] = merge(c, va, vb)
                     except MergeFail:
                         e[k] = None     # dead temporaries of differing shapes; a later read fails closed
             e['__fn'] = e0['__fn']; e['__act'] = e0['__act']
@@ -988,11 +1170,22 @@ class Exec:
             stmts = f.blocks[bb]
             ctx.cur_guard = g
             for s in stmts[:-1]:
-                self.stmt(fr, s, f)
+                try: self.stmt(fr, s, f)
+                except Inconclusive as e:
+                    if ' [at ' not in str(e): raise Inconclusive('%s [at %s:%s `%s`]' % (e, f.name, bb, s[:160]))
+                    raise
             term = stmts[-1].rstrip(';')
             site = '%s:%s' % (f.name, bb)
             if term.startswith('goto -> '): go(term[8:], g, fr); continue
-            if term == 'return': outs.append((g, fr)); continue
+            if term == 'return':
+                cut = self.opts.get('cut_err_returns')
+                if cut and re.search(cut, f.name):
+                    rv = fr.get('_0')
+                    if isinstance(rv, En) and rv.disc.const() == 1 and ('Result' in f.ret):
+                        # stated cut: an error return of the reader propagates to the caller through `?` without further computation
+                        ctx.cut_err = getattr(ctx, 'cut_err', 0) + 1; ctx.drops += 1
+                        continue
+                outs.append((g, fr)); continue
             if term == 'unreachable': ctx.drops += 1; continue
             if term.startswith('resume') or term.startswith('abort'): ctx.drops += 1; continue
             m = re.match(r'^switchInt\((.*)\) -> \[(.*)\]$', term)
@@ -1023,6 +1216,7 @@ class Exec:
             if m:
                 dest, callee, argstr, ret = self.split_call(term)
                 cargs = [self.operand(fr, a) for a in split_top(argstr)]
+                fr['__cg'] = g          # the path condition this activation is suspended under while the callee runs
                 val, rg = self.call(callee, cargs, g, site)
                 ctx.cur_guard = g
                 ctx.frames[act] = fr
@@ -1072,6 +1266,7 @@ class Exec:
             kk = int(k)
             if kk < iv.lo or kk > iv.hi: continue
             if isinstance(v, BV): conds.append((v.t if kk == 1 else znot(v.t), t, (v, kk == 1), None))
+            elif self.opts.get('resolve_ite') and z3.is_app_of(iv.t, z3.Z3_OP_ITE): conds.append((eq_const(iv.t, kk), t, None, ('eq', kk)))
             else: conds.append((iv.t == kk, t, None, ('eq', kk)))
         # arms with the same target become one literal; the literals of one switch form an exhaustive group
         bytgt = {}
@@ -1151,12 +1346,16 @@ class Exec:
     def call(self, callee, args, guard, site):
         from . import models
         ctx = self.ctx
+        def norm(r):
+            # a model's return guard that is a ground comparison of numerals is decided here, not left to the solver
+            g = fold_ground(r[1])
+            return r if g is None else (r[0], T if g else F)
         for mfn in self.extra_models:
             r = mfn(self, callee, args, guard, site)
-            if r is not None: return r
+            if r is not None: return norm(r)
         r = models.std_model(self, callee, args, guard, site)
         if r is not None:
-            return r
+            return norm(r)
         name = self.resolve(callee)
         if name is None:
             # closure call through FnOnce/FnMut/Fn
@@ -1168,4 +1367,10 @@ class Exec:
         if ab is not None and self.in_contract and not getattr(ab, 'always', False): ab = None
         if ab is not None and ab.applies(name):
             return ab.apply(self, name, args, guard, site)
-        return self.call_body(self.fns[name], args, guard)
+        gm = re.search(r'::<([^<>]*)>$', callee)
+        if not hasattr(self, 'generic_stack'): self.generic_stack = []
+        self.generic_stack.append([x.strip() for x in gm.group(1).split(',')] if gm else [])
+        try:
+            return self.call_body(self.fns[name], args, guard)
+        finally:
+            self.generic_stack.pop()
